@@ -200,8 +200,15 @@ CHECKS = {
         "carriers; TLC accepts the recorded image and symbols iff they equal Denote(Expand(P)). .include is checked "
         "through the executable: moving the tail of a program into an included file must give the identical output file.",
    design_ref="DESIGN.md 4 C09",
-   note="Define/equ values are single literals or names (no multi-token textual splicing); no labels inside macro bodies or "
-        "repeat blocks; the CharSource stack-discipline model of the design is not built in this revision.",
+   note="Character level: CharSource.tla models the tokenizer's character source (file, stack of expansion texts, unget "
+        "buffer, per-level marks into it) as tokens_get_char / macros_get_char implement it; MCCharSource checks for every "
+        "sequence of up to 7 (9) Get/Unget/Push operations that it refines the reference stream (Get = head, Unget puts a "
+        "character in front, Push puts the text in front); GenCharSource draws operation scripts that the real "
+        "tokens_get_char / tokens_unget_char / macros_push_define execute (harness mode chars) and TraceCharSource compares "
+        "the delivered characters with the reference. Every program is also rendered in seven layouts (comments, CRLF, no "
+        "final newline, tabs, blank lines) and macro parameters are named by four schemes (names are bound names). "
+        "Define/equ values are single literals or names (no multi-token textual splicing); no labels inside macro bodies or "
+        "repeat blocks.",
    technique="TLA+ hand-expansion function composed with the directive semantics; TLC-generated programs replayed "
              "into the real assembler; TLC trace acceptor"),
  "C11": dict(
